@@ -30,7 +30,6 @@ void h_isContained(void)
  * contract makes it an obligation at every call site:  (i) p came out of weakly_canonical, (ii) lexically_relative(p, root) was
  * non-empty and did not start with "..", root being the one canonicalised at construction, (iii) is_regular_file(p) said yes
  * (or p is the ".gz" sibling of such a path and is_regular_file(sibling) said yes). */
-iora_optstr Assets_readFile(const iora_path *p);
 iora_optstr Assets_readFile_contract(const iora_path *p)
 __CPROVER_requires(IORA_TRUE && G_root_kind != 0)
 /* O1 */ __CPROVER_requires(P_OPEN_OK(p->id))
